@@ -11,8 +11,8 @@ import (
 	msgv1 "cosmossdk.io/api/cosmos/msg/v1"
 	"cosmossdk.io/math"
 	storetypes "cosmossdk.io/store/types"
-	gogoproto "github.com/cosmos/gogoproto/proto"
 	sdk "github.com/cosmos/cosmos-sdk/types"
+	gogoproto "github.com/cosmos/gogoproto/proto"
 	protov2 "google.golang.org/protobuf/proto"
 	"google.golang.org/protobuf/reflect/protoreflect"
 
@@ -218,6 +218,40 @@ func CloneMsg(w *chain.World, m sdk.Msg) sdk.Msg {
 	return n.(sdk.Msg)
 }
 
+// AddressesIn lists every account address that appears in a string field of the message.
+func AddressesIn(m sdk.Msg) []string {
+	out := []string{}
+	seen := map[string]bool{}
+	var walk func(v reflect.Value, depth int)
+	walk = func(v reflect.Value, depth int) {
+		if depth > 4 {
+			return
+		}
+		switch v.Kind() {
+		case reflect.Ptr:
+			if !v.IsNil() {
+				walk(v.Elem(), depth+1)
+			}
+		case reflect.Struct:
+			for i := 0; i < v.NumField(); i++ {
+				walk(v.Field(i), depth+1)
+			}
+		case reflect.Slice:
+			for i := 0; i < v.Len() && i < 8; i++ {
+				walk(v.Index(i), depth+1)
+			}
+		case reflect.String:
+			s := v.String()
+			if _, err := sdk.AccAddressFromBech32(s); err == nil && !seen[s] {
+				seen[s] = true
+				out = append(out, s)
+			}
+		}
+	}
+	walk(reflect.ValueOf(m), 0)
+	return out
+}
+
 // AuthResult is the outcome of the in-process sweep on one state.
 type AuthResult struct {
 	Gated          int
@@ -231,7 +265,7 @@ type AuthResult struct {
 // every class, on a discarded branch of ctx: the call must fail and the digest of all stores must
 // be identical before and after. Positive control: the same fixture with the governance address
 // must not be rejected with the same error.
-func CheckGated(w *chain.World, st *Stats, fixtures map[string]sdk.Msg, senders map[string][]string) AuthResult {
+func CheckGated(w *chain.World, st *Stats, fixtures map[string][]sdk.Msg, senders map[string][]string) AuthResult {
 	res := AuthResult{}
 	base := w.ReadCtx()
 	d0, entries := Digest(w, base)
@@ -245,77 +279,85 @@ func CheckGated(w *chain.World, st *Stats, fixtures map[string]sdk.Msg, senders 
 			continue
 		}
 		res.Gated++
-		fx, ok := fixtures[g.TypeURL]
+		fxs, ok := fixtures[g.TypeURL]
 		generic := false
-		if !ok {
+		if !ok || len(fxs) == 0 {
 			m, err := w.App.InterfaceRegistry().Resolve(g.TypeURL)
 			if err != nil {
 				res.Uncovered = append(res.Uncovered, g.TypeURL+": cannot instantiate")
 				continue
 			}
 			FillGeneric(reflect.ValueOf(m), 0)
-			fx = m.(sdk.Msg)
+			fxs = []sdk.Msg{m.(sdk.Msg)}
 			generic = true
 			res.GenericFixture = append(res.GenericFixture, g.TypeURL)
 		}
-		call := func(addr string) (err error, digest string) {
-			m := CloneMsg(w, fx)
-			if !SetSigner(m, g.SignerField, addr) {
-				return fmt.Errorf("verif: cannot set signer field %s", g.SignerField), d0
-			}
-			br, _ := base.CacheContext()
-			func() {
-				defer func() {
-					if r := recover(); r != nil {
-						err = fmt.Errorf("panic: %v", r)
-					}
+		for _, fx := range fxs {
+			// every address the fixture itself names (its target) is a sender to try as well
+			targets := AddressesIn(fx)
+			call := func(addr string) (err error, digest string) {
+				m := CloneMsg(w, fx)
+				if !SetSigner(m, g.SignerField, addr) {
+					return fmt.Errorf("verif: cannot set signer field %s", g.SignerField), d0
+				}
+				br, _ := base.CacheContext()
+				func() {
+					defer func() {
+						if r := recover(); r != nil {
+							err = fmt.Errorf("panic: %v", r)
+						}
+					}()
+					_, err = w.App.MsgServiceRouter().Handler(m)(br, m)
 				}()
-				_, err = w.App.MsgServiceRouter().Handler(m)(br, m)
-			}()
-			digest, _ = Digest(w, br)
-			return
-		}
-		// positive control
-		govErr, _ := call(w.Gov)
-		reached := false
-		var firstUserErr error
-		for _, cl := range classes {
-			for _, addr := range senders[cl] {
-				if addr == w.Gov {
-					continue
+				digest, _ = Digest(w, br)
+				return
+			}
+			// positive control
+			govErr, _ := call(w.Gov)
+			reached := false
+			var firstUserErr error
+			for _, cl := range append(append([]string{}, classes...), "fixture_target") {
+				list := senders[cl]
+				if cl == "fixture_target" {
+					list = targets
 				}
-				err, d1 := call(addr)
-				res.Evaluations++
-				st.EvalCase(g.TypeURL + "|" + cl + "|" + addr + "|" + d0[:12])
-				if firstUserErr == nil {
-					firstUserErr = err
-				}
-				short := strings.TrimPrefix(g.TypeURL, "/elys.")
-				if err == nil {
-					w.Report(chain.Violation{Property: "C17", Rule: "C17.gated_msg_rejected", Scope: sc("msg", short, "sender_class", cl), Ops: []string{short}, Relation: "accepted_from_non_authority",
-						Detail: fmt.Sprintf("height %d: %s with %s=%s (%s) was accepted by its handler", w.Height, short, g.SignerField, addr, cl)})
-				}
-				if d1 != d0 {
-					w.Report(chain.Violation{Property: "C17", Rule: "C17.rejected_msg_leaves_state_unchanged", Scope: sc("msg", short, "sender_class", cl), Ops: []string{short}, Relation: "state_changed",
-						Detail: fmt.Sprintf("height %d: %s with %s=%s (%s): store digest changed (err=%v)", w.Height, short, g.SignerField, addr, cl, err)})
+				for _, addr := range list {
+					if addr == w.Gov {
+						continue
+					}
+					err, d1 := call(addr)
+					res.Evaluations++
+					st.EvalCase(g.TypeURL + "|" + cl + "|" + addr + "|" + d0[:12])
+					if firstUserErr == nil {
+						firstUserErr = err
+					}
+					short := strings.TrimPrefix(g.TypeURL, "/elys.")
+					if err == nil {
+						w.Report(chain.Violation{Property: "C17", Rule: "C17.gated_msg_rejected", Scope: sc("msg", short, "sender_class", cl), Ops: []string{short}, Relation: "accepted_from_non_authority",
+							Detail: fmt.Sprintf("height %d: %s with %s=%s (%s) was accepted by its handler", w.Height, short, g.SignerField, addr, cl)})
+					}
+					if d1 != d0 {
+						w.Report(chain.Violation{Property: "C17", Rule: "C17.rejected_msg_leaves_state_unchanged", Scope: sc("msg", short, "sender_class", cl), Ops: []string{short}, Relation: "state_changed",
+							Detail: fmt.Sprintf("height %d: %s with %s=%s (%s): store digest changed (err=%v)", w.Height, short, g.SignerField, addr, cl, err)})
+					}
 				}
 			}
-		}
-		if firstUserErr != nil && (govErr == nil || govErr.Error() != firstUserErr.Error()) {
-			reached = true
-		}
-		if !reached {
-			res.Uncovered = append(res.Uncovered, fmt.Sprintf("%s: fixture (generic=%v) does not reach the signer check (gov err: %v, user err: %v)", g.TypeURL, generic, govErr, firstUserErr))
-		}
-		if len(st.Samples) < 8 {
-			ue := ""
-			if firstUserErr != nil {
-				ue = firstUserErr.Error()
-				if len(ue) > 120 {
-					ue = ue[:120]
-				}
+			if firstUserErr != nil && (govErr == nil || govErr.Error() != firstUserErr.Error()) {
+				reached = true
 			}
-			st.Sample(map[string]interface{}{"height": w.Height, "msg": g.TypeURL, "signer_field": g.SignerField, "why_gated": g.Why, "sender_classes": classes, "non_authority_error": ue, "authority_accepted_or_other_error": fmt.Sprint(govErr), "state_entries_hashed": entries})
+			if !reached {
+				res.Uncovered = append(res.Uncovered, fmt.Sprintf("%s: fixture (generic=%v) does not reach the signer check (gov err: %v, user err: %v)", g.TypeURL, generic, govErr, firstUserErr))
+			}
+			if len(st.Samples) < 8 {
+				ue := ""
+				if firstUserErr != nil {
+					ue = firstUserErr.Error()
+					if len(ue) > 120 {
+						ue = ue[:120]
+					}
+				}
+				st.Sample(map[string]interface{}{"height": w.Height, "msg": g.TypeURL, "signer_field": g.SignerField, "why_gated": g.Why, "sender_classes": classes, "non_authority_error": ue, "authority_accepted_or_other_error": fmt.Sprint(govErr), "state_entries_hashed": entries})
+			}
 		}
 	}
 	for _, c := range classes {
@@ -327,5 +369,5 @@ func CheckGated(w *chain.World, st *Stats, fixtures map[string]sdk.Msg, senders 
 // C17 is a plain stats holder; the sweep is driven by the scenario.
 type C17 struct{ st *Stats }
 
-func NewC17() *C17          { return &C17{st: NewStats("C17")} }
+func NewC17() *C17           { return &C17{st: NewStats("C17")} }
 func (m *C17) Stats() *Stats { return m.st }
